@@ -1,7 +1,33 @@
 //! Small helpers shared by every suite: executor, PRNG, hex, panic capture.
 use std::future::Future;
 use std::pin::pin;
+use std::sync::atomic::{AtomicU64, Ordering};
+use std::sync::Mutex;
 use std::task::{Context, Poll, RawWaker, RawWakerVTable, Waker};
+
+/// progress counter and the lines of the scenario being executed, for the hang watchdog (`main::watchdog`)
+pub static PROGRESS: AtomicU64 = AtomicU64::new(0);
+pub static CURRENT: Mutex<Vec<String>> = Mutex::new(Vec::new());
+/// true while scenarios are being generated (generators that execute lines tick themselves then)
+pub static GENERATING: std::sync::atomic::AtomicBool = std::sync::atomic::AtomicBool::new(true);
+
+/// tick from inside an executor, only while generating (the suite loop ticks during execution)
+pub fn tick_gen(line: &str) {
+    if GENERATING.load(Ordering::Relaxed) {
+        tick(line);
+    }
+}
+
+/// called before every scenario line is executed (by the suite loop and by generators that execute lines)
+pub fn tick(line: &str) {
+    PROGRESS.fetch_add(1, Ordering::Relaxed);
+    if let Ok(mut c) = CURRENT.lock() {
+        if line.starts_with("new ") || c.len() > 20000 {
+            c.clear();
+        }
+        c.push(line.to_string());
+    }
+}
 
 /// All futures of the library are immediately ready; a no-op waker suffices.
 pub fn block_on<F: Future>(f: F) -> F::Output {
